@@ -573,11 +573,20 @@ func (ex *Exec) applyContractNamed(fr *Frame, st *State, c *Contract, names []st
 	}
 	if !claimsGhostFrame(c, ex.prop) && !c.Extern {
 		for _, n := range ex.frameGhosts {
-			st.ghost[n] = ex.declare("g_"+n, ex.lib.Ghosts[n].Sort)
+			if !ex.lib.Ghosts[n].Stable {
+				st.ghost[n] = ex.declare("g_"+n, ex.lib.Ghosts[n].Sort)
+			}
 		}
 	}
 	// results
 	rs := ex.freshResults(st, sig, sanitizeName(lastSeg(key)))
+	// constructors (flag fresh-result): the result is a NEW object, distinct from every existing reference
+	if c.Flags["fresh-result"] && len(rs) >= 1 {
+		if p, ok := rs[0].(*Ptr); ok && p.Ref != nil {
+			ex.ncell++
+			rs[0] = &Ptr{Ref: IntConst(int64(-ex.ncell)), Root: p.Root}
+		}
+	}
 	// a pure function whose contract defines its single scalar result ("ensures r == e") returns e itself:
 	// equal calls then yield syntactically equal terms (fewer forks, smaller queries)
 	if c.Flags["pure"] && len(rs) == 1 {
